@@ -769,6 +769,14 @@ func TestC09(t *testing.T) {
 			t.Fatalf("operation failed on one of two Equal frames only: %v vs %v\n%s", ra.Err, rb.Err, desc())
 		}
 		if ra.Err == nil {
+			// Equals between a frame and what an operation made of it (the two share storage): true exactly when their
+			// observations are equal
+			if oa, err := hx.Observe(ra); err == nil {
+				wantEq := modelEquals(tab, oa)
+				if ab, ba, why := equalsBoth(d.QF, ra); ab != wantEq || ba != wantEq {
+					t.Fatalf("Equals(frame, operation(frame))=%v / %v, their observations say %v (%s)\n%s", ab, ba, wantEq, why, desc())
+				}
+			}
 			ra, rb = canon(ra), canon(rb)
 			if ab, ba, why := equalsBoth(ra, rb); !ab || !ba {
 				t.Fatalf("same operation on two Equal frames gave results that are not Equal (%v,%v): %s\n%s", ab, ba, why, desc())
@@ -777,6 +785,23 @@ func TestC09(t *testing.T) {
 			ob, errb := hx.Observe(rb)
 			if erra != nil || errb != nil || !modelEquals(oa, ob) {
 				t.Fatalf("same operation on two Equal frames gave different observations: %v %v %s\n%s", erra, errb, hx.Diff(oa, ob), desc())
+			}
+		}
+		// siblings: two frames that each add a column of their own to the same parent (itself the result of an addition);
+		// the first one is observed again, by every observer, after the second was made
+		if len(tab.Cols) > 0 {
+			first := tab.Cols[0].Name
+			parent := d.QF.Copy("zz-parent", first)
+			sa := parent.Copy("zz-sib-a", first)
+			before, err1 := hx.Observe(sa)
+			_ = parent.WithRowNums("zz-sib-b")
+			after, err2 := hx.Observe(sa)
+			if err1 != nil || err2 != nil || !modelEquals(before, after) {
+				t.Fatalf("a frame changed when a sibling was derived from its parent: %v %v %s\n%s", err1, err2, hx.Diff(before, after), desc())
+			}
+			var buf bytes.Buffer
+			if err := sa.ToJSON(&buf); err != nil || !strings.Contains(buf.String(), "zz-sib-a") && sa.Len() > 0 {
+				t.Fatalf("ToJSON of the first sibling does not show its own column: %v %s\n%s", err, clipS(buf.String()), desc())
 			}
 		}
 		classes = append(classes, "metaop:"+op)
